@@ -533,6 +533,12 @@ func (p *pair) send(col *table.Collector, g gen, kind int, big, faulty bool) {
 			col.Violate("request-altered", "%s %s: the handler received a different request: %s", kindName, tag, d)
 		}
 		if kind == 3 && !bytes.Equal(rec.data, body) {
+			if faulty && err != nil && bytes.HasPrefix(body, rec.data) {
+				// the connection was cut while the body was streaming: the handler saw a
+				// prefix (it can tell from Size) and the caller got an error
+				col.Cov("snapshot-body-cut-by-fault", 1)
+				continue
+			}
 			col.Violate("snapshot-body-altered", "%s %s: handler read %d bytes, %d were sent (equal prefix: %v)", kindName, tag, len(rec.data), len(body), bytes.HasPrefix(body, rec.data))
 		}
 	}
